@@ -47,7 +47,19 @@ func eval1(t *Term, model map[string]ModelVal, memo map[int]evalRes) (uint64, bo
 		}
 		return mv.U, true
 	case OApply:
-		return 0, false
+		f, ok := FuncImpl[t.Name]
+		if !ok {
+			return 0, false
+		}
+		args := make([]uint64, len(t.Args))
+		for i, a := range t.Args {
+			v, ok := Eval(a, model, memo)
+			if !ok {
+				return 0, false
+			}
+			args[i] = v
+		}
+		return f(args), true
 	}
 	if t.Sort.K == KBV && t.Sort.W > 64 {
 		return 0, false
@@ -230,3 +242,7 @@ func eval1(t *Term, model map[string]ModelVal, memo map[int]evalRes) (uint64, bo
 	}
 	return 0, false
 }
+
+// FuncImpl gives the evaluator the real meaning of functions that are
+// uninterpreted for the solver (an over-approximation there).
+var FuncImpl = map[string]func(args []uint64) uint64{}
